@@ -14,14 +14,16 @@ import (
 )
 
 var (
-	ProgPool    = []string{"cmd/go", "cmd/go2", "cmd/g", "golang.org/x/tools/gopls", "Cmd/go"}
+	// "cmd/go/a" extends "cmd/go" by a path element: with counter "b" resp. "a/b" (and stack "stk" resp. "a/stk")
+	// the two programs have items whose program/name concatenations coincide
+	ProgPool    = []string{"cmd/go", "cmd/go2", "cmd/g", "golang.org/x/tools/gopls", "Cmd/go", "cmd/go/a"}
 	VersionPool = []string{"v1.2.3", "v1.2.4-pre.1", "devel", "go1.22.1", ""}
 	GoVersPool  = []string{"go1.21.0", "go1.22.1", "go1.22", "devel"}
 	GOOSPool    = []string{"linux", "darwin", "windows"}
 	GOARCHPool  = []string{"amd64", "arm64", "386"}
 	// counter expressions in the documented syntax; expansions are pairwise disjoint
-	ExprPool  = []string{"a/b", "a/bc", "x", "chart:{b1,b2,b3}", "chart2:{b}", "c:{b,bb}", "gopls/client:{vscode,vim}", "go/invocations"}
-	StackPool = []string{"crash/crash", "gopls/bug", "stk"}
+	ExprPool  = []string{"a/b", "a/bc", "x", "chart:{b1,b2,b3}", "chart2:{b}", "c:{b,bb}", "gopls/client:{vscode,vim}", "go/invocations", "b"}
+	StackPool = []string{"crash/crash", "gopls/bug", "stk", "a/stk"}
 	RatePool  = []float64{0, 0.1, 0.5, 0.9, 1}
 )
 
